@@ -1344,7 +1344,29 @@ impl<'a> Gen<'a> {
     /// Statements that build cyclic / aliased / shared structure and garbage (for C03/C04).
     fn gc_stmt(&mut self) -> Vec<J> {
         let ls = self.vars_of(|t| *t == Ty::ListInt);
-        match self.rng.below(19) {
+        match self.rng.below(21) {
+            19 | 20 if self.typed() => {
+                // record instances holding containers (one shared with a module variable), the default
+                // list shared by every instance, an enum value as a dict key
+                let sh = self.fresh("rl");
+                let r = self.fresh("rr");
+                let h = self.fresh("rh");
+                let mut mk = call(var("RecT"), vec![]);
+                mk["named"] = json!([named("n", int(self.small_int())), named("l", var(&sh))]);
+                let mut mk2 = call(var("RecT"), vec![]);
+                mk2["named"] = json!([named("n", int(2))]);
+                let key = callf("EnumT", vec![strlit("b")]);
+                let t = self.fresh("tmp");
+                vec![assign(&sh, self.expr(&Ty::ListInt, 2)),
+                     assign(&r, mk),
+                     assign(&h, json!({"k": "dict", "keys": [key.clone()], "vals": [json!({"k": "list", "items": [var(&r), dot(var("EnumT"), "c")]})]})),
+                     assign(&t, callf("len", vec![json!({"k": "compr", "elt": json!({"k": "list", "items": [var("q_"), var("q_")]}), "clauses": [
+                        {"k": "for", "tg": {"k": "var", "n": "q_"}, "it": callf("range", vec![int(130)])}]})])),
+                     json!({"k": "expr", "e": mcall(dot(var(&r), "l"), "append", vec![int(77)])}),
+                     json!({"k": "expr", "e": mcall(dot(mk2.clone(), "l"), "append", vec![var(&t)])}),
+                     emit(tuple(vec![var(&r), var(&sh), dot(mk2, "l")])),
+                     emit(json!({"k": "index", "e": var(&h), "i": key}))]
+            }
             16 | 17 => {
                 // a container filled, then EMPTIED IN PLACE (it keeps its storage) while aliased from
                 // other containers; collections may happen while it is empty; then it is mutated
